@@ -628,6 +628,15 @@ def monitor_ok(py, t, exc_on_noname):
     return True
 
 
+def ornone_ok(py, t):
+    """Mirror of the evaluate_or_none clause of CaseOK (labels only)."""
+    if py['kind'] == 'value' and py['val']['k'] != 'none':
+        return t['kind'] == 'value' and t['eq']
+    if py['kind'] in ('type', 'missing', 'noname', 'zerodiv', 'value'):
+        return t['kind'] != 'value'
+    return True
+
+
 def symptom(py, t):
     k, tk = py['kind'], t['kind']
     if k == 'value':
@@ -661,7 +670,12 @@ def eval_case(h, expr, env, ns):
         fut.cancel()
         return r
     ts = tpl_outcome(subscribe, pyk, pyv)
-    return {'op': 'case', 'py': py, 'te': te, 'ts': ts, '_src': minimal, '_lazy': lazyk, '_py': repr(pyv)[:80]}
+
+    def or_none():
+        r = pm.build_raw_template(minimal, DFLT).evaluate_or_none(params)
+        return DFLT if r is None else r
+    tn = tpl_outcome(or_none, pyk, pyv)
+    return {'op': 'case', 'py': py, 'te': te, 'ts': ts, 'tn': tn, '_src': minimal, '_lazy': lazyk, '_py': repr(pyv)[:80]}
 
 
 def minimal_failure(h, expr, env, ns):
@@ -669,7 +683,7 @@ def minimal_failure(h, expr, env, ns):
     while True:
         for c in children(expr):
             e = eval_case(h, c, env, ns)
-            if not (monitor_ok(e['py'], e['te'], False) and monitor_ok(e['py'], e['ts'], True)):
+            if not (monitor_ok(e['py'], e['te'], False) and monitor_ok(e['py'], e['ts'], True) and ornone_ok(e['py'], e.get('tn', e['te']))):
                 expr = c
                 break
         else:
@@ -678,6 +692,8 @@ def minimal_failure(h, expr, env, ns):
                 sym = symptom(e['py'], e['te'])
             elif not monitor_ok(e['py'], e['ts'], True):
                 sym = symptom(e['py'], e['ts']) + '-on-subscribe'
+            elif not ornone_ok(e['py'], e['tn']):
+                sym = symptom(e['py'], e['tn']) + '-on-evaluate_or_none'
             else:
                 sym = 'only-in-context'
             if node_class(expr) == 'computed-index' and 'exc' in (e['te']['kind'], e['ts']['kind']):
@@ -700,7 +716,7 @@ def exec_cases(job):
         for k, expr in enumerate(exprs):
             e = eval_case(h, expr, env, ns)
             tr = {'cfg': {'id': 0, 'expr': expr, 'vars': [], 'ep': False}, 'env0': env, 'ev': [e]}
-            if not (monitor_ok(e['py'], e['te'], False) and monitor_ok(e['py'], e['ts'], True)):
+            if not (monitor_ok(e['py'], e['te'], False) and monitor_ok(e['py'], e['ts'], True) and ornone_ok(e['py'], e.get('tn', e['te']))):
                 tr['_min'] = minimal_failure(h, expr, env, ns)
             out.append(tr)
             if k % 64 == 63:
